@@ -216,8 +216,12 @@ def entry_case(i_seed):
     if kind == "cls":
         okw["cast_keyword_str"] = True
         if rng.random() < 0.3: okw["addition"] = rng.choice([True, False])
-        src = "class %s(%s):\n    __options__ = Options(%s)\n    v: int = 0\n    w: str = ''\n" % (
-            t, rng.choice(["Schema", "DataClass"]), ", ".join("%s=%r" % kv for kv in okw.items()))
+        seen = []
+        dyn._S[t] = seen
+        req = rng.random() < 0.5
+        src = ("class %s(%s):\n    __options__ = Options(%s)\n    v: int%s\n    w: str = ''\n"
+               "    def __validate__(self):\n        _S[%r].append((self.v, self.w))\n") % (
+            t, rng.choice(["Schema", "DataClass"]), ", ".join("%s=%r" % kv for kv in okw.items()), "" if req else " = 0", t)
         dyn.declare(src)
         K = dyn.get(t)
         keys = ["v", "w", 1, 2.5, None, True, (1, 2), b"k", b"\xff", "", BadStr(), frozenset([1])]
@@ -227,15 +231,29 @@ def entry_case(i_seed):
                 data[rng.choice(keys)] = hostile_value(rng, 1)
             except TypeError:
                 pass
+        if rng.random() < 0.4:
+            data["v"] = rng.choice(["abc", None, [], 5, "7"])
+        how = rng.choice(["from", "init"]) if all(isinstance(k, str) and k.isidentifier() for k in data) else "from"
         try:
-            K.__from__(data)
-            return ("ok", kind)
+            r = K.__from__(data) if how == "from" else K(**data)
+            out = "ok"
         except exc.ParseError:
-            return ("parse", kind)
+            out = "parse"
         except RecursionError:
             return ("recursion", kind)
         except Exception as e:
-            return "%s\n__from__(%s) let %s escape: %s" % (src, srepr(data, 300), type(e).__name__, str(e)[:100])
+            return "%s\n%s(%s) let %s escape: %s" % (src, how, srepr(data, 300), type(e).__name__, str(e)[:100])
+        for v, w in seen:
+            if not (isinstance(v, int) and isinstance(w, str)):
+                return "%s\n%s(%s): __validate__ ran on (v=%r, w=%r), which are not the declared types" % (src, how, srepr(data, 300), v, w)
+        if out == "ok":
+            try:
+                vv, ww = (r["v"], r["w"]) if isinstance(r, dict) else (r.v, r.w)
+            except (KeyError, AttributeError):
+                return "%s\n%s(%s) returned an instance without its fields (%r): an input that cannot be parsed was accepted" % (src, how, srepr(data, 300), r)
+            if not (isinstance(vv, int) and isinstance(ww, str)):
+                return "%s\n%s(%s) returned (v=%r, w=%r), which are not the declared types" % (src, how, srepr(data, 300), vv, ww)
+        return (out, kind)
     seen = []
     dyn._S[t] = seen
     gen = rng.random() < 0.25
